@@ -19,6 +19,7 @@ from valida.schema import Schema
 
 from .. import gen as G
 from ..common import Report, stream, digest, order_to_decisions, big
+from ..isolation import pristine_state
 from ..engine import Engine, Monitor, Scripted
 from ..ops import canon_fd, canon_rt, canon_vd
 from ..terms import World, snap, diff_path
@@ -136,8 +137,6 @@ class SpecGen:
             val = self.arg(args[0])
         elif meth in STAR:
             val = [self.arg(a) for a in args]
-            if meth in ("is_instance", "keys_is_instance") and len(val) == 1 and r.random() < 0.3:
-                val = val[0]
         elif meth == "in_range":
             lo, hi = self.arg(args[0]), self.arg(args[1])
             val = [lo, hi] if r.random() < 0.5 else {"lower": lo, "upper": hi}
@@ -200,6 +199,12 @@ class SpecGen:
                 d[k] = self.cond(v)
         if r.random() < 0.1:
             d["label"] = "lbl"
+        if r.random() < 0.2:
+            # entries spelled out as null, as a YAML author may write them
+            for k in r.sample(["key", "index", "value", "condition", "list_condition", "map_condition", "label"], r.randint(1, 3)):
+                ok = {"map_value": ("key", "value", "condition", "label"), "list_value": ("index", "value", "condition", "label")}.get(d.get("type"), ("key", "index", "value", "condition", "list_condition", "map_condition", "label"))
+                if k in ok and k not in d:
+                    d[k] = None
         return d
 
     def partlist(self, path_term):
@@ -230,6 +235,8 @@ def specable_cond(t):
                 return False
         if t[2] == "not_in_range":
             return False
+        if t[2] != t[2].lower():
+            return False  # spec keys are lower-cased by the parser: *_N_of cannot be spelled
     return True
 
 
@@ -243,6 +250,15 @@ def specable_arg(a):
     if a[0] == "lv":
         return all(specable_arg(x) for x in a[1])
     if a[0] == "v":
+        # an empty mapping as an argument (or one level inside it) makes the
+        # data-path detection raise StopIteration: not a well-formed spec today
+        x = a[1]
+        if x == {} and isinstance(x, dict):
+            return False
+        if isinstance(x, list) and any(isinstance(i, dict) and not i for i in x):
+            return False
+        if isinstance(x, dict) and any(isinstance(i, dict) and not i for i in x.values()):
+            return False
         return True
     return False
 
@@ -373,7 +389,7 @@ def generate(seed):
             if dc is not None:
                 rule["doc"] = dc
             else:
-                rule["doc"] = r.choice(["text\n", ["a\n"], {"description": "d\n"}, {"description": ["d"], "examples": ["e\n"]}])
+                rule["doc"] = r.choice(["text\n", ["a\n"], {"description": "d\n"}, {"description": ["d"], "examples": ["e\n"]}, {}, "", [], {"description": [], "examples": [" e "]}, [" a ", "b\n"]])
         if r.random() < 0.5:
             rule = dict(sorted(rule.items(), key=lambda kv: r.random()))
         return rule
@@ -512,11 +528,13 @@ def on_boundary(eng, c, k, op, out):
         # for this text, with every alias expanded into its own copy, parsed
         # through init_rules (loading the text - rather than taking the term -
         # keeps the mapping key order the dumper chose)
-        f1 = try_parse("Schema.init_rules", _load_unshared(world.get("specs", si)))
-        f2 = try_parse("Schema.init_rules", _load_unshared(world.get("specs", si)))
+        with pristine_state():
+            f1 = try_parse("Schema.init_rules", _load_unshared(world.get("specs", si)))
+            f2 = try_parse("Schema.init_rules", _load_unshared(world.get("specs", si)))
     else:
-        f1 = try_parse(entry, World(term).get("specs", si))
-        f2 = try_parse(entry, World(term).get("specs", si))
+        with pristine_state():
+            f1 = try_parse(entry, World(term).get("specs", si))
+            f2 = try_parse(entry, World(term).get("specs", si))
     st["parses"] += 1
     if res[0] != f1[0] or (res[0] == "raise" and res[1] != f1[1]):
         vio.append(
@@ -538,8 +556,18 @@ def on_boundary(eng, c, k, op, out):
     except Exception:
         eq_ok = False
     if not eq_ok:
+        # "parsing the same spec structure a second time yields an object equal
+        # to the first": if even two parses of two fresh deep copies are not
+        # equal, that sentence cannot hold for this spec
         st["eq_unusable"] += 1
-    bf = behaviour(kind, f1[1], docs)
+        try:
+            detail = repr(f1[1] == f2[1])
+        except Exception as e:
+            detail = f"raise {type(e).__name__}"
+        vio.append(dict(oracle="reparse_differs", locus=f"{entry}:two_fresh_parses_not_equal", detail={"op": op, "eq": detail}))
+        return vio
+    with pristine_state():
+        bf = behaviour(kind, f1[1], docs)
     bs = behaviour(kind, obj, docs)
     if bs != bf:
         vio.append(dict(oracle="reparse_differs", locus=f"{entry}:behaviour", detail={"op": op, "shared": repr(bs)[:500], "fresh": repr(bf)[:500]}))
